@@ -632,6 +632,16 @@ pub fn gen_run(verif_seed: u64, index: u64) -> IoRun {
         } else {
             Pre::Absent
         };
+        // very many shape layers multiply the document: keep those for small symbols
+        let n_shapes = setters.iter().filter(|s| matches!(s, RSetter::Shape(_) | RSetter::ShapeColor(_, _))).count();
+        let mut qr = qr;
+        if n_shapes > 16 {
+            qr.version = None;
+            qr.input.truncate(if n_shapes > 200 { 10 } else { 40 });
+            if qr.input.is_empty() {
+                qr.input.push(b'7');
+            }
+        }
         let plan = gen_plan(&mut rng, &sw);
         let mut pad_to = None;
         if kind == Kind::Svg && sw.pad && rng.chance(3, 10) {
@@ -640,6 +650,11 @@ pub fn gen_run(verif_seed: u64, index: u64) -> IoRun {
             let i = if rng.chance(1, 2) { rng.usize_below(sizes.len() / 2) } else { rng.usize_below(sizes.len()) };
             pad_to = Some(sizes[i]);
             setters.push(RSetter::Image(ImageSpec::Filler(0)));
+        }
+        if kind == Kind::Svg && pad_to.is_none() && rng.chance(1, 25) {
+            // a large document full of multi-byte characters: block and chunk boundaries fall
+            // inside characters
+            setters.push(RSetter::Image(ImageSpec::FillerUtf8(*rng.pick(&[50_000usize, 70_000, 140_000]))));
         }
         let rlimit = if sw.rlimit && rng.chance(15, 100) && !target.kernel_fault() {
             Some(match rng.below(7) {
@@ -669,7 +684,8 @@ pub fn gen_run(verif_seed: u64, index: u64) -> IoRun {
             crash_at: None,
         };
         if matches!(op.target, Target::Relative(_)) && rng.chance(1, 3) {
-            op.cwd = 1;
+            // another working directory, or (real-kernel fault) one that has been removed
+            op.cwd = if sw.real_kernel && rng.chance(1, 3) { 2 } else { 1 };
         }
         // related operations: the same export again, or a close relative of an earlier one
         // (what a watch loop, a batch job or a retry does) - where memos and caches live
@@ -720,7 +736,12 @@ pub fn gen_run(verif_seed: u64, index: u64) -> IoRun {
                     }
                 }
                 // other code, same options
-                5 => op.qr = fresh.qr.clone(),
+                5 => {
+                    let many = op.setters.iter().filter(|s| matches!(s, RSetter::Shape(_) | RSetter::ShapeColor(_, _))).count() > 16;
+                    if !many {
+                        op.qr = fresh.qr.clone();
+                    }
+                }
                 // the other renderer onto the same path
                 6 => {
                     op.kind = fresh.kind;
@@ -732,7 +753,7 @@ pub fn gen_run(verif_seed: u64, index: u64) -> IoRun {
             }
             if matches!(op.target, Target::Relative(_)) && rng.chance(1, 2) {
                 // the same relative name from another working directory is another file
-                op.cwd = 1 - op.cwd.min(1);
+                op.cwd = if op.cwd == 0 { 1 } else { 0 };
             }
         }
         if sw.litter && !op.target.kernel_fault() && rng.chance(1, 4) {
@@ -1137,9 +1158,19 @@ pub fn exec_op(dir: &Path, idx: usize, op: &IoOp, stats: &mut Stats, pre: Option
     // 3. pre-state at the target
     if pre.is_none() {
         // single-caller run: this call's working directory (relative destinations follow it)
-        let wd = if op.cwd % 2 == 1 { dir.join("cwd-b") } else { dir.to_path_buf() };
+        let wd = match op.cwd % 3 {
+            0 => dir.to_path_buf(),
+            1 => dir.join("cwd-b"),
+            _ => dir.join("cwd-gone"),
+        };
         let _ = std::fs::create_dir_all(&wd);
         let _ = std::env::set_current_dir(&wd);
+        if op.cwd % 3 == 2 {
+            // the process now sits in a directory that no longer exists: nothing can be created
+            // through a relative path, and the working directory cannot even be named
+            let _ = std::fs::remove_dir(&wd);
+            stats.bump("fired:kernel_cwd_removed", 1);
+        }
     }
     let path = resolve_path(dir, &op.target);
     match op.target {
@@ -1170,6 +1201,9 @@ pub fn exec_op(dir: &Path, idx: usize, op: &IoOp, stats: &mut Stats, pre: Option
             if std::os::unix::fs::symlink("/dev/full", &path).is_err() {
                 return skip(rep, "no_dev_full", stats);
             }
+        }
+        Target::Relative(_) if op.cwd % 3 == 2 && pre.is_none() => {
+            // nothing can be put at a relative path: the working directory is gone
         }
         Target::Scratch(_) | Target::Relative(_) | Target::Sub(_) => {
             if matches!(op.target, Target::Sub(_)) {
